@@ -25,7 +25,7 @@ Definition zs (z : Z) : string := NilEmpty.string_of_int (Z.to_int z).
 Fixpoint strhex (s : list N) : string := match s with [] => "" | c :: r => hex4s c 4 ++ strhex r end.
 Definition show (v : val) : string :=
   match v with
-  | VB b => if b then "b:1" else "b:0" | VI z => "i:" ++ zs z | VU z => "u:" ++ zs z | VL z => "l:" ++ zs z
+  | VB b => if b then "b:1" else "b:0" | VI z => "i:" ++ zs z | VU z => "u:" ++ zs z | VL z => "i:" ++ zs z
   | VS s => "s:" ++ (match s with [] => "-" | _ => strhex s end) | VP None => "p:null" | VP (Some i) => "p:" ++ oname i | VNull => "null" | VVoid => "void"
   end.
 Fixpoint join (sep : string) (l : list string) : string := match l with [] => "" | [x] => x | x :: r => x ++ sep ++ join sep r end.
